@@ -261,6 +261,20 @@ def space(tier, parts=('a', 'b', 'nonroot')):
             info['b:%s' % sname] = '%d x %d edits x %d configs' % (len(d1), len(d1), len(cfgs))
             for i in idx:
                 shards.append(('b', sname, 'git', cfgs, None, (i,), idx))
+    if 'b' in parts and tier == 'quick':
+        # focused slices: output edits x output strategies, attachment/source edits x input strategies (found by the thorough tier first)
+        for sname in ('S45', 'S44'):
+            seed, d1 = depth1(sname)
+            oidx = tuple(i for i, (l, t, n) in enumerate(d1) if t['kind'] in ('outputs', 'rerun', 'execution_count'))
+            cfgs = (KEY_CONFIGS[5], KEY_CONFIGS[6], KEY_CONFIGS[7], ('use-base', None, 'inline', True))
+            info['b-outputs:%s' % sname] = '%d x %d output edits x %d configs' % (len(oidx), len(oidx), len(cfgs))
+            for i in oidx:
+                shards.append(('b', sname, 'git', cfgs, None, (i,), oidx))
+            iidx = tuple(i for i, (l, t, n) in enumerate(d1) if t['kind'] in ('attachments', 'source', 'cell-retype', 'cell-delete'))
+            cfgs = (KEY_CONFIGS[8], KEY_CONFIGS[9], KEY_CONFIGS[11])
+            info['b-inputs:%s' % sname] = '%d x %d input edits x %d configs' % (len(iidx), len(iidx), len(cfgs))
+            for i in iidx:
+                shards.append(('b', sname, 'git', cfgs, None, (i,), iidx))
     if 'nonroot' in parts and tier == 'thorough':
         seed, d1 = depth1('S45')
         for bl, bt, bnb in d1:
